@@ -12,7 +12,7 @@ extern "C" {
 typedef uint32_t vr32;
 typedef uint64_t vr64;
 
-enum { VR_FALSE, VR_OEQ, VR_OGT, VR_OGE, VR_OLT, VR_OLE, VR_ONE, VR_ORD, VR_UEQ, VR_UGT, VR_UGE, VR_ULT, VR_ULE, VR_UNE, VR_UNO, VR_TRUE };
+enum { VRP_FALSE, VRP_OEQ, VRP_OGT, VRP_OGE, VRP_OLT, VRP_OLE, VRP_ONE, VRP_ORD, VRP_UEQ, VRP_UGT, VRP_UGE, VRP_ULT, VRP_ULE, VRP_UNE, VRP_UNO, VRP_TRUE };
 
 /* exception flag protocol */
 extern int exc_pending, exc_type;
@@ -31,6 +31,7 @@ void* vr_exc_alloc(uint64_t n);
 void vr_terminate(void);
 void vr_trap(void);
 void vr_unreachable(void);
+void vr_bad_icall(void);
 uint64_t vr_nondet_u64(void);
 
 #ifdef __CPROVER__
